@@ -88,7 +88,7 @@ func decisive(rel, traits string) string {
 	has := func(x string) bool { return strings.Contains("+"+traits+"+", "+"+x+"+") }
 	switch {
 	case has("rest") && (has("trail") || has("post")):
-		return rel + ":rest-then-trailing"
+		return "rest-then-trailing"
 	case has("rest") && has("reqkw"):
 		return rel + ":rest+reqkw"
 	case rel == "above-max" && has("ret-untyped"):
